@@ -17,9 +17,10 @@ def showHdr : Hdr → String
 
 def symFile (eager : Bool) (sheets : List String) : FileSem :=
   { eager := eager, sheets := sheets,
-    rangeRef := fun n h => s!"rangeRef({n}|{showHdr h})",
+    parts := sheets.map fun n => (n, n),
+    partRange := fun n h => s!"rangeRef({n}|{showHdr h})",
+    partFormula := fun n => s!"formula({n})",
     toOwned := fun o => s!"own({o})",
-    formula := fun n => s!"formula({n})",
     mergeCells := fun n => s!"mergeCells({n})",
     mergedAll := "mergedAll",
     mergedBySheet := fun n => s!"mergedBySheet({n})",
